@@ -357,6 +357,12 @@ def run_gap(direction, g, ctx):
     if direction == 'row':
         first, last = 'A1', '%s1' % col_name(n)
         mid = '%s1' % col_name(n // 2 + 1) if g >= 1 else None
+    elif direction == '2d':
+        # two columns: the blank cells between the first and the last cell
+        # of A1:B<r> in row-major order are g = 2r - 2
+        assert g % 2 == 0
+        first, last = 'A1', 'B%d' % (n // 2)
+        mid = None
     else:
         first, last = 'A1', 'A%d' % n
         mid = 'A%d' % (n // 2 + 1) if g >= 1 else None
@@ -367,7 +373,8 @@ def run_gap(direction, g, ctx):
         if variant == 'ends-and-after':
             # a third value right after the range end must NOT be included
             after = ('%s1' % col_name(n + 1)) if direction == 'row' \
-                else 'A%d' % (n + 1)
+                else ('A%d' % (n + 1) if direction == 'column'
+                      else 'A%d' % (n // 2 + 1))
             cells['Sheet1!' + after] = 4
         for i, func in enumerate(FUNCS):
             cells['Sheet1!ZZ%d' % (900 + i)] = '=%s(%s)' % (func, rng)
@@ -778,6 +785,8 @@ def plan(tier):
     for direction in ('row', 'column'):
         for g in GAPS:
             shards.append({'family': 'gap', 'direction': direction, 'g': g})
+    for g in (0, 2, 50, 98, 100, 102, 118, 198, 202):
+        shards.append({'family': 'gap', 'direction': '2d', 'g': g})
     shards.append({'family': 'names'})
     shards.append({'family': 'current'})
     shards.append({'family': 'emptysheet'})
